@@ -1,4 +1,5 @@
 import LyModel.Lyb.TreeLemmasC
+import LyModel.Lyb.TreeLemmasE
 /-! The whole document: magic number, header byte, module table, top-level siblings, ending zero. -/
 namespace LyModel.LybTree
 open LyModel LyModel.Lyb LyModel.Tree LyModel.Generated LyModel.Generated.LybTree
@@ -11,8 +12,7 @@ theorem doc_rt (P : Params) (hP : P.Ok) (o : POpts) (S : LSchema) (hwd : ∀ w, 
   split at hp
   · simp at hp
   · rename_i ops hops
-    split at hp
-    · rename_i hnest
+    · have hnest := docOps_wellNested o S t ops hops
       have hat := at_init P hP ops hnest img hp
       obtain ⟨x1, y1, hx1, hy1, rfl⟩ := cat_eq_some hops
       obtain ⟨x2, y2, hx2, hy2, rfl⟩ := cat_eq_some hy1
@@ -68,6 +68,5 @@ theorem doc_rt (P : Params) (hP : P.Ok) (o : POpts) (S : LSchema) (hwd : ∀ w, 
           simp only [parseLybF, e1, hm2, Bool.false_eq_true, ↓reduceIte, e2, hv, c1, e3, pModels, e4, hmm, Bool.true_or,
             pSibs] at e6 ⊢
           simp only [show ((1 : Nat) != 0) = true from rfl, e6, e7, Option.map_some, List.nil_append]
-    · simp at hp
 
 end LyModel.LybTree
